@@ -109,6 +109,17 @@ func verifC03Reconstruct() {
 	} else {
 		vAssert(len(al) == 0, "no inner ALPN: ALPNProtos is empty (never the outer list)")
 	}
+	// the backend is an independent TLS stack: crypto/tls's server fed the delivered record
+	if tok, tsni, talpn := vTLSExtract(got); tok {
+		vAssert(tsni == c.ServerName(), "ServerName equals what crypto/tls extracts from the delivered hello")
+		vAssert(len(talpn) == len(al), "ALPNProtos equals what crypto/tls extracts (length)")
+		for i := range talpn {
+			if i < len(al) {
+				vAssert(talpn[i] == al[i], "ALPNProtos equals what crypto/tls extracts")
+			}
+		}
+		vReach("tls-agrees")
+	}
 	vObserve(len(got), c.ECHAccepted())
 	vReach("checked")
 }
